@@ -1,5 +1,5 @@
 """C09 - timers never fire early; the loop never sleeps past the next expiry."""
-from engine.qb import (AnalysisBroken, estr, unwrap, cval, walk, last_field, fields_of, callee_of, mentions_var,
+from engine.qb import (cmp_forms, AnalysisBroken, estr, unwrap, cval, walk, last_field, fields_of, callee_of, mentions_var,
                        atoms_of, var_ranges)
 from rules.common import field_is, has_call, value_sources, some_source, derives
 
@@ -259,8 +259,9 @@ def r4(ctx):
                       'a non-zero result is returned for a timer that is not pending')
     ir = prog.fn('qb_loop_timer_is_running')
     rets = ir.returns()
-    ok = len(rets) == 1 and unwrap(rets[0].e).get('k') == 'bin' and unwrap(rets[0].e)['op'] == '>' and \
-        callee_of(unwrap(unwrap(rets[0].e)['l'])) == 'qb_loop_timer_expire_time_get' and cval(unwrap(unwrap(rets[0].e)['r'])) == 0
+    # expire_time_get() > 0 in either orientation; != 0 is the same thing for the unsigned result
+    ok = len(rets) == 1 and any(o in ('>', '!=') and callee_of(unwrap(l)) == 'qb_loop_timer_expire_time_get' and cval(unwrap(r)) == 0
+                                for (l, o, r) in cmp_forms(rets[0].e))
     ctx.check('R4', 'is_running', ok, ir, 'is_running == (expire_time_get > 0)', 'is_running is no longer expire_time_get() > 0')
     th = prog.fn('_timer_from_handle_')
     outs = [ev for ev in th.events('STORE') if unwrap(ev.lhs).get('k') == 'deref' and estr(unwrap(ev.lhs)['e']) == th.params[2]['n']]
